@@ -68,18 +68,23 @@ class FileProxy:
         self.pending = []  # chunk byte strings in the user-space buffer
         self.cur = b''
         self.pos = 0
+        self.text = b''  # everything handed to write() (reference runs read the whole document from here)
         self.next_chunk = 0
+        # length of the document this handle is going to receive (int, or one entry per file opened by the run)
+        dl = proc.doc_len
+        self.doc_len = dl if isinstance(dl, int) else dl[min(len(proc.handles), len(dl) - 1)]
         if proc.op('open', path):
             self.fd = os.open(path, flags, 0o644)
         proc.handles.append(self)
 
     def _boundary(self, j):
-        return (self.proc.doc_len * j) // self.proc.K
+        return (self.doc_len * j) // self.proc.K
 
     def write(self, s):
         if self.proc.dead:
             return len(s)
         data = s.encode() if isinstance(s, str) else bytes(s)
+        self.text += data
         K = self.proc.K
         while data:
             if self.next_chunk < K and self.pos == self._boundary(self.next_chunk):
@@ -298,4 +303,252 @@ def replay_dict(r):
         bad = not out['name_ok']
     else:
         bad = not out['some_complete']
+    return bad, out
+
+
+# ====================================================================================== caller level
+# The REAL algorithms (real torch optimisers, real Parameters, real joint distribution, real MCMC operator, real
+# leapfrog integrator) run in a REAL temporary directory; only the file-system primitives visible in
+# parameter_utils (and in the module of the algorithm) go through the crash-counting proxies above.
+def _seed():
+    import random
+
+    import numpy as np
+    import torch
+
+    torch.manual_seed(7)
+    np.random.seed(7)
+    random.seed(7)
+
+
+def _joint_and_param():
+    import torch
+    from torchtree.core.parameter import Parameter
+    from torchtree.distributions.distributions import Distribution
+    from torchtree.distributions.joint_distribution import JointDistributionModel
+
+    x = Parameter('x', torch.tensor([0.5, -1.0, 2.0], dtype=torch.float64))
+    loc = Parameter('loc', torch.tensor([0.0], dtype=torch.float64))
+    scale = Parameter('scale', torch.tensor([1.0], dtype=torch.float64))
+    joint = JointDistributionModel('joint', [Distribution('normal', torch.distributions.Normal, x,
+                                                          {'loc': loc, 'scale': scale})])
+    return joint, x
+
+
+def real_algo(entry, name, ca, freq, iters):
+    import torch
+
+    joint, x = _joint_and_param()
+    kw = dict(checkpoint=name, checkpoint_frequency=freq, checkpoint_all=ca)
+    if entry.startswith('Optimizer.'):
+        from torchtree.optim.optimizer import Optimizer
+
+        x.requires_grad = True
+        if entry == 'Optimizer._run_closure':
+            topt = torch.optim.LBFGS([x.tensor], lr=0.1, max_iter=2)
+        else:
+            topt = torch.optim.Adam([x.tensor], lr=0.1)
+        return Optimizer('opt', [x], joint, topt, iters, **kw)
+    if entry == 'MCMC.run':
+        from torchtree.inference.mcmc.mcmc import MCMC
+        from torchtree.inference.mcmc.operator import SlidingWindowOperator
+
+        op = SlidingWindowOperator('op', [x], 1.0, 0.24, 0.5)
+        return MCMC('mcmc', joint, [op], iters, every=0, **kw)
+    if entry == 'HMC.run':
+        from torchtree.inference.hmc.hmc import HMC
+        from torchtree.inference.hmc.integrator import LeapfrogIntegrator
+
+        return HMC([x], joint, iters, LeapfrogIntegrator('leapfrog', 2, 0.01), every=1000, **kw)
+    raise KeyError(entry)
+
+
+def _resume(algo, entry, epoch0, workdir):
+    """Bring a fresh algorithm object to epoch0 the way torchtree.py does with -c: an uninterrupted run of the same
+    algorithm writes a checkpoint at epoch0, its state entry is read back (TensorDecoder) and handed to
+    load_state_dict.  Returns a note."""
+    if epoch0 == 1 or entry == 'HMC.run':
+        return 'fresh run' if entry != 'HMC.run' else 'HMC has no resumable epoch'
+    from torchtree.core.utils import TensorDecoder
+
+    p = os.path.join(workdir, 'resume-from.json')
+    _seed()
+    prev = real_algo(entry, p, False, epoch0, epoch0)
+    _quiet(prev.run)
+    with builtins.open(p) as f:
+        doc = json.load(f, cls=TensorDecoder)
+    state = [e for e in doc if isinstance(e, dict) and e.get('id') == algo.id and 'iteration' in e]
+    os.remove(p)
+    if len(state) != 1 or state[0]['iteration'] != epoch0:
+        raise RuntimeError(f'no state entry with iteration={epoch0} in the checkpoint to resume from')
+    algo.load_state_dict(state[0])
+    return f'resumed at epoch {epoch0} through load_state_dict from a checkpoint written by an uninterrupted run'
+
+
+def _quiet(fn):
+    import contextlib
+    import io
+
+    with contextlib.redirect_stdout(io.StringIO()):
+        return fn()
+
+
+def _run_real(entry, name, ca, freq, iters, epoch0, proc, workdir, on_boundary=None):
+    import importlib
+
+    from chk.c18_callers import ENTRIES
+
+    mod = M.target_module()
+    caller = importlib.import_module(ENTRIES[entry][0])
+    _seed()
+    algo = real_algo(entry, name, ca, freq, iters)
+    note = _resume(algo, entry, epoch0, workdir)
+    _seed()
+    osp = OsProxy(proc)
+    direct = {id(os.rename): osp.rename, id(os.replace): osp.replace, id(os.remove): osp.remove,
+              id(os.unlink): osp.unlink, id(os.fsync): osp.fsync}
+    plan_t = M.patch_plan(mod, None, osp, None, _open_for(proc), direct)
+    plan_c = M.patch_plan(caller, None, osp, None, _open_for(proc), direct)
+    real = mod.save_parameters
+    calls = []
+
+    def save_parameters(*a, **kw):
+        calls.append(proc.ops)
+        out = real(*a, **kw)
+        if on_boundary is not None and not proc.dead:
+            on_boundary()
+        return out
+
+    plan_c['save_parameters'] = save_parameters
+    err = None
+    with M.patched(mod, plan_t), M.patched(caller, plan_c):
+        try:
+            _quiet(algo.run)
+        except Exception as e:
+            err = f'{type(e).__name__}: {e}'
+    return err, note, calls
+
+
+class _Tape(_Proc):
+    """uninterrupted reference run: every handle keeps the whole document it received"""
+
+    def __init__(self, K):
+        _Proc.__init__(self, 10 ** 9, 0, K, 1)
+
+
+def _parse(path):
+    if not os.path.lexists(path):
+        return ABSENT, None
+    try:
+        with builtins.open(path) as f:
+            return COMPLETE, json.load(f)
+    except Exception:
+        return BAD, None
+
+
+def _family_of(path):
+    b = os.path.basename(str(path))
+    return b[:-4] if b.endswith(('.old', '.new')) else b
+
+
+def run_caller(entry, ca, kind, freq, iters, epoch0, families, crash_at, lost, K=None):
+    """families: {base name: (n, o, w)} pre-state lengths in model terms (the families the model run touched).
+    Materialise them in a real directory, run the real algorithm with the process dying before file-system
+    operation `crash_at` of the run, classify every family at every call boundary and afterwards (a file is
+    complete iff json.load succeeds and yields the previous document of that name or one the uninterrupted
+    reference run wrote under that name).  Returns a plain dict."""
+    from chk.c18_callers import NAMES
+
+    K = K or M.K
+    top = tempfile.mkdtemp(prefix='c18c_')
+    try:
+        ref, d = os.path.join(top, 'ref'), os.path.join(top, 'run')
+        os.mkdir(ref)
+        os.mkdir(d)
+        base_name = NAMES[kind]
+        prev = {}
+        for b in families:
+            # the previous checkpoint under b = what an uninterrupted one-write run of the same algorithm leaves
+            p = os.path.join(ref, 'prev-' + b)
+            _seed()
+            _quiet(real_algo(entry, p, False, 1, 1).run)
+            with builtins.open(p, 'rb') as f:
+                prev[b] = f.read()
+            os.remove(p)
+        for dd in (ref, d):
+            for b, pre in families.items():
+                for suffix, n in zip(('', '.old', '.new'), pre):
+                    if n == -1:
+                        continue
+                    with builtins.open(os.path.join(dd, b + suffix), 'wb') as f:
+                        f.write(prev[b] if n >= K else prev[b][:(len(prev[b]) * n) // K])
+        tape = _Tape(K)
+        err0, _, _ = _run_real(entry, os.path.join(ref, base_name), ca, freq, iters, epoch0, tape, top)
+        if err0:
+            raise RuntimeError(f'uninterrupted reference run raised {err0}')
+        lens = [h.pos for h in tape.handles] or [1]
+        good = {b: [json.loads(prev[b])] for b in families}
+        for h in tape.handles:
+            b = _family_of(h.path)
+            if b in good:
+                try:
+                    good[b].append(json.loads(h.text))
+                except Exception:
+                    pass
+
+        def classes(b, show=None):
+            cl = []
+            for suffix in ('', '.old', '.new'):
+                p = os.path.join(d, b + suffix)
+                c, obj = _parse(p)
+                txt = 'absent'
+                if c == COMPLETE and not any(obj == g for g in good[b]):
+                    c = BAD
+                    txt = f'parses but is neither the previous nor a new checkpoint ({os.path.getsize(p)} bytes)'
+                elif c == COMPLETE:
+                    txt = f'complete ({os.path.getsize(p)} bytes, json.load ok)'
+                elif c == BAD:
+                    txt = f'NOT PARSEABLE ({os.path.getsize(p)} bytes)'
+                if show is not None:
+                    show[b + suffix] = txt
+                cl.append(c)
+            return tuple(cl)
+
+        state = {'c1': True, 'c2': True,
+                 'snap': {b: tuple(0 if n == -1 else (1 if n >= K else 2) for n in pre) for b, pre in families.items()}}
+
+        def boundary():
+            for b in families:
+                a, now = state['snap'][b], classes(b)
+                if a != (0, 0, 0):
+                    if 1 in a and COMPLETE not in now:
+                        state['c1'] = False
+                    if a[0] != 2 and now[0] == BAD:
+                        state['c2'] = False
+                state['snap'][b] = now
+
+        before = {b: list(v) for b, v in state['snap'].items()}
+        proc = _Proc(crash_at, lost, K, lens)
+        err, note, calls = _run_real(entry, os.path.join(d, base_name), ca, freq, iters, epoch0, proc, top, boundary)
+        last = {b: list(v) for b, v in state['snap'].items()}
+        boundary()
+        out = {'entry': entry, 'checkpoint_all': ca, 'checkpoint': base_name, 'checkpoint_frequency': freq,
+               'iterations': iters, 'start_epoch': epoch0, 'start': note, 'crash_at': crash_at, 'lost': lost, 'K': K,
+               'ops': proc.trace, 'raised': err, 'families': {}, 'c1': state['c1'], 'c2': state['c2'],
+               'save_parameters_calls': len(calls)}
+        for b in families:
+            show = {}
+            cl = classes(b, show)
+            out['families'][b] = {'before_run': before[b], 'at_last_completed_write': last[b], 'after': list(cl),
+                                  'files': show}
+        out['nops'] = len([o for o in proc.trace if not o.startswith('CRASH')])
+        return out
+    finally:
+        shutil.rmtree(top, ignore_errors=True)
+
+
+def replay_caller(r):
+    out = run_caller(r['entry'], r['checkpoint_all'], r['kind'], r['freq'], r['iters'], r['epoch0'],
+                     {b: tuple(v) for b, v in r['families'].items()}, r['crash_at'], r['lost'], r['K'])
+    bad = (not out['c2']) if r['clause'] == 'name-truncated' else (not out['c1'])
     return bad, out
